@@ -121,7 +121,7 @@ def run_check(mod, tier: str, seed: int) -> int:
 
     # 1. proof obligations
     theorems = C.theorems_of(props_file)
-    bad_hyg = C.hygiene()
+    bad_hyg = C.hygiene([f'props/{mod.PROPS_MODULE}.v'] + [t[:-1] for t in mod.MODEL_TARGETS])
     if tier == 'thorough':
         # rebuild the property's own files from scratch
         for f in getattr(mod, 'CLEAN_FOR_THOROUGH', []) + [f'props/{mod.PROPS_MODULE}.vo']:
